@@ -4,16 +4,16 @@ per-system generation / oracle / projection in lib/c16_<system>.py."""
 import json, os, re
 from concurrent.futures import ThreadPoolExecutor
 import vlib
-import c16_dqueue
+import c16_dqueue, c16_shcounter, c16_loadbalancer, c16_gcounter, c16_proxy
 
 ID = "C16"
 THEOREMS = "Properties/C16.v"
 HARNESS = ["c16"]
 LEVEL = "proof"
 READY = True
-SYSTEMS = [c16_dqueue]
+SYSTEMS = [c16_dqueue, c16_shcounter, c16_loadbalancer, c16_gcounter, c16_proxy]
 # walks per system: quick, thorough
-BUDGET = {"dqueue": (70, 2500)}
+BUDGET = {"dqueue": (45, 2500), "shcounter": (25, 800), "loadbalancer": (35, 2000), "gcounter": (35, 1500), "proxy": (35, 1500)}
 
 TRUSTED_BASE = [
     "Coq 8.16.1 kernel (coqc, full .vo build); vm_compute used in the non-vacuity Examples and in the correspondence evaluation",
@@ -85,6 +85,9 @@ def run(ctx):
                                  "obs": [(o["proc"], o["label"], o["outcome"], o["picks"]) for o in r["steps"]][-40:]})
         for b in a["breaks"]:
             ctx.breaks.append({"what": "%s step harness: %s" % (c["system"], b), "case": a["explicit"]})
+        for k3, v3 in a.get("stats", {}).items():
+            stats = ctx.extra.setdefault("stats_" + c["system"], {})
+            stats[k3] = stats.get(k3, 0) + v3
         if a["coq"] is not None:
             walks[c["system"]].append((a, r))
     ctx.extra["input_distribution"] = dist
